@@ -6,7 +6,8 @@ a successful `Doc::verify_signature` (dominance, or must-pass-through the verify
 membership and the signature; only delegates of the current document act; `current`
 is written only by `adopt` under `is_majority(votes)` with votes = number of heads
 equal to the candidate; majority = len/2 + 1; the accepted/current revision is never
-redacted or edited; `Identity::op` is transactional (TX) so a failed accept leaves no
+redacted or edited; `Identity::op` is transactional (TX, and no ignored step error can
+follow a write of that step) so a failed accept leaves no
 vote behind.  Not decided: "majority of the replaced document" over arbitrary
 concurrent histories."""
 import re
@@ -247,3 +248,8 @@ def run(ctx):
         else:
             ctx.held("tx:Identity::apply", "Identity::apply is transactional", rules.where(f), fn=f)
     ctx.floor("tx:Identity::apply", len(ap), 1, "Evaluate::apply for Identity")
+    # a vote recorded by a step whose error is then ignored would survive without a verified signature
+    from .. import swallow
+    idf = [(f, p) for f, p in swallow.cob_functions(db) if "cob::identity" in f["key"]]
+    nsw = swallow.check(ctx, idf, "swallow", "ignored step error in identity evaluation")
+    ctx.floor("swallow:identity", nsw, 1, "sites in identity evaluation where a step's error is ignored")
